@@ -13,7 +13,8 @@ of three or more where `>` is an operator character, i.e. PostgreSQL), `parseHel
 
 All theorems hold for EVERY configuration `c : Cfg` (the 13 dialects are instances), every
 environment `env` (keyword class of unquoted identifiers, lexing of raw custom-type modifiers),
-every fuel / recursion depth above an explicit bound in the type, and unbounded nesting depth.
+both values of `gtOp` (`is_custom_operator_part('>')`, true for PostgreSQL), every fuel / recursion
+depth above an explicit bound in the type, and unbounded nesting depth.
 
 * `closing_brackets_balance`  the lexer turns the printed pre-tokens of a type followed by `k` more
                        closing brackets into the compositional stream `emit`, in which each maximal
@@ -36,8 +37,9 @@ only ClickHouse, `STRUCT(…)` only DuckDB, `Unspecified` never, …), numbers w
 lists non-empty, a custom name that is not a type keyword of the dialect, modifiers that lex to one
 word/number token, unnamed struct/tuple fields whose type does not start with two words, and the
 three exclusions that are DEFECTS of the code (witnessed below): a `[]` suffix after an even number
-of closing angle brackets, an angle-bracket struct closed by the second half of `>>` in front of a
-comma, and three or more closers where `>` is an operator character.
+of closing angle brackets (`prod`), an angle-bracket struct closed by the second half of `>>` in
+front of a comma (`prod` for inner positions, `FollowOK` for the follower), and three or more
+closers in a row where `>` is an operator character (`Producible`'s `shortRuns` clause).
 Partial (by design of the token-level model): payload texts (identifiers, ENUM/SET labels, the
 DateTime64 zone) are tokens here; that printing them yields text lexing back to that token is C06's
 theorem for the payloads satisfying its predicates, and the stream `dtprint` for the rest.
@@ -132,6 +134,17 @@ theorem dt_yield (c : Cfg) (env : Env) (gtOp : Bool) (t : DT) (rest : List Tok) 
     ∃ t' rest', parseDT c fuel depth (printDT c env gtOp t ++ rest) = .ok (t', rest') ∧
       printDT c env gtOp t ++ rest = printDT c env gtOp t' ++ rest' ∧ rest' = rest :=
   ⟨t, rest, dt_roundtrip c env gtOp t rest fuel depth hp hfollow hf hd, rfl, rfl⟩
+
+/-- NOT PROVED (kept as a statement): yield for ARBITRARY input — whatever tokens the parser accepts,
+what it leaves is a suffix of its input and the consumed prefix equals the print of the result up
+to the normal forms the parser erases (letter case and quoting of keyword words, `007` vs `7` and the
+`L` suffix of numbers, the token kind of a DateTime64 zone, optional commas between custom modifiers,
+a trailing comma in DuckDB lists, `> >` vs `>>`, BigQuery's split of dotted quoted names).  Missing:
+an induction over the PARSER's run (every arm, every loop) instead of over the printed type; the tie
+for non-printed inputs is the stream `dtparse` (token count left after the type is compared). -/
+def YieldFullStatement : Prop :=
+  ∀ (c : Cfg) (fuel depth : Nat) (ts rest : List Tok) (t : DT),
+    parseDT c fuel depth ts = .ok (t, rest) → ∃ consumed, ts = consumed ++ rest ∧ consumed ≠ []
 
 /-- printing is injective on producible types: different types print differently -/
 theorem print_injective (c : Cfg) (env : Env) (gtOp : Bool) (t u : DT) (ht : Producible c env gtOp t)
@@ -251,7 +264,7 @@ theorem custom_empty_modifier_vanishes (env : Env) (gtOp : Bool) (h : env.lexMod
   simp only [printDT, pre, retok]
   simp [h, hk, nameToks, intersperse, identTok, List.isEmpty, retokGo, run, LParen, RParen, Comma, GtT, ShrT, parseDT,
     parseDataType, parseHelper, headOf, parseLeaf, simpleOfKw, lenOfKw, intOfKw, numOfKw, parseCustom, objName,
-    parseIdent, bqSplit, generic, consumeSym, Tok.isSym, modLoop, SqlVerif.Pratt.wordDisplay, suffixLoop, bind,
+    parseIdent, bqSplit, generic, consumeSym, Tok.isSym, modLoop, suffixLoop, bind,
     Except.bind, pure, Except.pure]
 
 -- the DateTime64 zone is printed between quotes WITHOUT escaping (data_type.rs 616-631)
@@ -278,35 +291,21 @@ theorem datetime64_zone_quote_breaks :
     (SqlVerif.Tok.nextToken lexEnv [39, 41]).toOption = none := by
   constructor <;> decide +kernel
 
-/-- the unrestricted statement (every value the parser returns, every follower that is not part of
-the type) is FALSE on the current code -/
+/-- the unrestricted statement — every value the parser itself returns, followed by a comma (the
+next column), with the fuel and depth of `dt_roundtrip` — is FALSE on the current code -/
 def FullStatement : Prop :=
-  ∀ (c : Cfg) (env : Env) (gtOp : Bool) (t : DT) (rest : List Tok),
-    (∃ ts fuel depth, parseDT c fuel depth ts = .ok (t, [])) → rest.head? = some Comma →
-    ∃ fuel depth, parseDT c fuel depth (printDT c env gtOp t ++ rest) = .ok (t, rest)
+  ∀ (c : Cfg) (env : Env) (gtOp : Bool) (t : DT) (rest : List Tok) (fuel depth : Nat),
+    (∃ ts, parseDT c fuel depth ts = .ok (t, [])) → rest.head? = some Comma →
+    size t ≤ fuel → ndepth t ≤ depth →
+    parseDT c fuel depth (printDT c env gtOp t ++ rest) = .ok (t, rest)
 
 theorem fullStatement_false : ¬ FullStatement := by
   intro h
   -- `STRUCT<a ARRAY<INT> >` (separate `>` `>`) parses to the struct; its print ends in `>>`
-  obtain ⟨fuel, depth, hres⟩ := h bigquery env0 false (.struct (.cons (some idA) (.arrayAngle INT) .nil) .angle) [Comma]
+  have hres := h bigquery env0 false (.struct (.cons (some idA) (.arrayAngle INT) .nil) .angle) [Comma] 10 50
     ⟨[kwTok "STRUCT" .STRUCT, LtT, .word (str "a") none .noKw, kwTok "ARRAY" .ARRAY, LtT, kwTok "INT" .INT, GtT, GtT],
-      10, 50, by with_unfolding_all rfl⟩ rfl
-  -- whatever the fuel and the depth, the answer is an error or another value
-  have key : ∀ fuel depth, parseDT bigquery fuel depth
-      (printDT bigquery env0 false (.struct (.cons (some idA) (.arrayAngle INT) .nil) .angle) ++ [Comma]) ≠
-      .ok (.struct (.cons (some idA) (.arrayAngle INT) .nil) .angle, [Comma]) := by
-    intro fuel depth
-    have hp : printDT bigquery env0 false (.struct (.cons (some idA) (.arrayAngle INT) .nil) .angle) ++ [Comma] =
-        [kwTok "STRUCT" .STRUCT, LtT, .word (str "a") none .noKw, kwTok "ARRAY" .ARRAY, LtT, kwTok "INT" .INT, ShrT, Comma] := by
-      decide
-    rw [hp]
-    rcases fuel with _ | _ | _ | _ | fuel
-    · intro h; cases h
-    all_goals
-      rcases depth with _ | _ | _ | depth <;>
-      simp [parseDT, parseDataType, parseHelper, structLoop, headOf, bigquery, generic, kwTok, LtT, ShrT, Comma, consumeSym,
-        Tok.isSym, fieldHasName, Tok.isWord, parseIdent, expectSym, parseLeaf, simpleOfKw, lenOfKw, intOfKw, numOfKw,
-        optPrecision, peekKw, suffixLoop, expectClosing, expectedAt, bind, Except.bind, pure, Except.pure]
-  exact key fuel depth hres
+      by with_unfolding_all rfl⟩ rfl (by decide) (by decide)
+  rw [struct_then_comma_rejected.1] at hres
+  cases hres
 
 end SqlVerif.Props.C18
